@@ -110,6 +110,10 @@ def map_(*kvs):
     return {"t": "map", "kvs": [list(kv) for kv in kvs]}
 
 
+def dot(e, p):
+    return {"t": "dot", "e": e, "p": p}
+
+
 def fn(ps, body, name=""):
     return {"t": "fn", "n": name, "ps": list(ps), "body": body}
 
@@ -260,10 +264,10 @@ class Renderer:
 
     @property
     def ln(self):
-        return self.base + len(self.lines)
+        return self.base + len(self.lines) + self.cur.count("\n")
 
     def newline(self):
-        self.lines.append(self.cur)
+        self.lines.extend(self.cur.split("\n"))     # a string literal may span lines
         self.cur = ""
 
     def emit(self, s):
@@ -299,6 +303,8 @@ class Renderer:
         if t == "call":
             s = "%s(%s)" % (self.e(x["f"], P_CALL), ", ".join(self.e(a, P_ASSIGN) for a in x["as"]))
             return "(%s)" % s if self.full else s
+        if t == "dot":
+            return "%s.%s" % (self.e(x["e"], P_CALL), x["p"])
         if t == "arr":
             return "[%s]" % ", ".join(self.e(a, P_ASSIGN) for a in x["es"])
         if t == "map":
